@@ -511,6 +511,7 @@ func filterpath(peer *peer, path, old *table.Path) *table.Path {
 				ignore = false
 			}
 			if peer.isRouteReflectorClient() {
+				ignore = false
 				// RFC4456 8. Avoiding Routing Information Loops
 				// If the local CLUSTER_ID is found in the CLUSTER_LIST,
 				// the advertisement received SHOULD be ignored.
@@ -521,10 +522,12 @@ func filterpath(peer *peer, path, old *table.Path) *table.Path {
 						peer.fsm.logger.Debug("cluster list path attribute has local cluster id, ignore",
 							slog.String("ClusterID", clusterID.String()),
 							slog.Any("Path", path))
-						return nil
+						// not advertised to this client; the old best it may
+						// hold is withdrawn below
+						ignore = true
+						break
 					}
 				}
-				ignore = false
 			}
 		}
 
